@@ -413,6 +413,20 @@ pub fn before_step(r: &mut Runner) {
         }
     });
     r.ext.c19.pending_before = pending;
+    // What the status views show right now.
+    let mut shown = BTreeMap::new();
+    for mca in &cas {
+        let Some(status) = status_json(r, &mca.name) else { continue };
+        if let Some(parents) = status.get("parents").and_then(|p| p.as_object()) {
+            for (parent, pstatus) in parents {
+                shown.insert(
+                    (mca.name.clone(), parent.clone()),
+                    classes_sorted(pstatus.get("classes")),
+                );
+            }
+        }
+    }
+    r.ext.c19.classes_shown = shown;
 }
 
 fn classes_sorted(value: Option<&Value>) -> Value {
